@@ -88,7 +88,7 @@ let read_op t : string * op =
   | "blind" ->
     let last = next_int t = 1 in
     let owned = next_list t next_n in
-    let iss = next_list t (fun t -> let i = next_n t in let c = next_int t = 1 in (i, c)) in
+    let iss = next_list t (fun t -> let i = next_n t in let c = next_n t in (i, c)) in
     let outs = next_list t (fun t -> let i = next_n t in let c = next_n t in (i, c)) in
     let surj = next_int t = 1 in let ba = next_int t = 1 in let rg = next_int t = 1 in let bv = next_int t = 1 in
     let gf = next_n t in let sc = next_n t in
